@@ -123,6 +123,11 @@ def random_cases(rep, a):
         for t in range(1, n):                     # AR(1) mixture
             Z[t] += 0.7 * Z[t - 1] @ (np.eye(p) * 0.8 + 0.2 * np.roll(np.eye(p), 1, axis=1))
         Z = Z * np.linspace(1, 3, p) + (0 if center else 5.0)
+        if r % 4 == 3:
+            # mixed physical units: one variable four orders of magnitude larger than the others
+            unit = np.ones(p)
+            unit[0] = 3e4
+            Z = Z * unit
         X = xr.DataArray(Z, dims=("time", "x"), coords=dict(time=np.arange(n), x=np.arange(p) * 1.0))
         for use_pca in (True, False):
             with warnings.catch_warnings():
@@ -148,8 +153,8 @@ def random_cases(rep, a):
             Pm = np.asarray(m.components().transpose("x", "mode").values)
             Ppc = V.T @ Pm                       # patterns in the reduced space
             for j, l in enumerate(lam):
-                resid = np.abs(Afb @ Ppc[:, j] - l * Ppc[:, j]).max() / max(np.abs(Ppc[:, j]).max(), 1e-300)
-                ck.m(resid <= 1e-6, "C18", "C18_EigenPairs", f"{tag}: A p = lambda p fails for mode {j + 1} with the independently computed feedback matrix (residual {resid:.2e})")
+                resid = np.abs(Afb @ Ppc[:, j] - l * Ppc[:, j]).max() / max(np.abs(Ppc[:, j]).max() * np.linalg.norm(Afb, 2), 1e-300)
+                ck.m(resid <= 1e-5, "C18", "C18_EigenPairs", f"{tag}: A p = lambda p fails for mode {j + 1} with the independently computed feedback matrix (residual {resid:.2e})")
             cplx = [l for l in lam if abs(l.imag) > 1e-10]
             ck.m(all(any(abs(l.conjugate() - o) < 1e-8 for o in cplx) for l in cplx), "C18", "C18_ConjugatePairs", f"{tag}: complex modes not in conjugate pairs")
             T = np.asarray(m.periods().values, float)
